@@ -21,7 +21,9 @@ def main():
     head = ("# Seeded changes\n\nEach directory: `patch.diff` (applies to /repo HEAD with `git apply`), `demo.py` (exit 0 on the "
             "unchanged tree, non-zero with the change), `notes.md` (the author's description), `meta.json` (what was run and "
             "observed). Written by independent sub-agents from the property text only (round 1: `_a`/`_b`/`_c`; round 2, asked "
-            "for changes that need scale, boundary values or rarely exercised paths to show: `_r2`); all pass the 76 existing "
+            "for changes that need scale, boundary values or rarely exercised paths to show: `_r2`; round 3, aimed at the glue "
+            "around the core and at interactions of features: `_r3`; round 4, confined to the small files no earlier round had "
+            "touched: `_r4`); all pass the 76 existing "
             "tests. Results of `harness/promote.py` (quick tier of the property's own check); %d changes, %d detected, %d with "
             "a concrete failing input:\n\n| change | detected | how | first line of the report |\n|---|---|---|---|\n"
             % (len(rows), sum(1 for r in res.values() if r["detected"]), sum(1 for r in res.values() if r["concrete"])))
